@@ -195,6 +195,10 @@ class CouplingAnalysis:
         assert numpy.isnan(data).sum() == 0, "NaNs in the data"
         assert tau_max >= 0, f"{tau_max =}"
         assert lag_mode in ['max', 'all'], f"{lag_mode =}"
+        if lag_mode == 'max' and tau_max > 127:
+            #  the lag matrix has the 8 bit integer type LAG
+            raise ValueError("lag_mode='max' stores lags as 8 bit integers: "
+                             "tau_max must not exceed 127")
 
         #  Normalize time series to zero mean and unit variance for all lags
         corr_range = T - tau_max
